@@ -91,7 +91,8 @@ func getCertificateInfo(c *x509.Certificate) (Info, error) {
 		Attribute{"Extended key usage", strings.Join(x509EKUs(c.ExtKeyUsage, c.UnknownExtKeyUsage), ", ")},
 	)
 
-	if c.BasicConstraintsValid && c.IsCA && (c.MaxPathLen != 0 || c.MaxPathLenZero) {
+	// crypto/x509: MaxPathLen is -1 when no pathLenConstraint is encoded, and 0 with MaxPathLenZero for an encoded 0
+	if c.BasicConstraintsValid && c.IsCA && (c.MaxPathLen > 0 || (c.MaxPathLen == 0 && c.MaxPathLenZero)) {
 		info.Attributes = append(info.Attributes, Attribute{"Max path length", fmt.Sprintf("%d", c.MaxPathLen)})
 	}
 
